@@ -34,7 +34,9 @@ CONSTANTS Regions, Handles
 
 NoRegion == [kind |-> "free", bits |-> FALSE, mem |-> <<>>, size |-> 0, claimed |-> FALSE, back |-> <<>>,
              alive |-> FALSE, released |-> 0]
-NoHandle == [kind |-> "none", refs |-> <<>>, off |-> 0, noff |-> 0, len |-> 0, snap |-> <<>>, vsnap |-> <<>>]
+NoHandle == [kind |-> "none", refs |-> <<>>, off |-> 0, noff |-> 0, len |-> 0, snap |-> <<>>, vsnap |-> <<>>,
+             nested |-> FALSE, rows |-> <<>>]
+MaxRefs == 6        \* most regions one handle refers to
 
 Sub(s, o, n) == [i \in 1..n |-> s[o + i]]
 Range(s) == {s[i] : i \in DOMAIN s}
@@ -43,18 +45,23 @@ Live(hd) == {x \in Handles : hd[x].kind # "none"}
 
 (* number of strong references to region r: one per reference held by a    *)
 (* live handle, one per live "ffi" region that keeps r alive                *)
-HandleRefs(hd, r) == LET P == {<<x, i>> \in Handles \X (1..2) : hd[x].kind # "none" /\ i <= Len(hd[x].refs) /\ hd[x].refs[i] = r}
+HandleRefs(hd, r) == LET P == {<<x, i>> \in Handles \X (1..MaxRefs) : hd[x].kind # "none" /\ i <= Len(hd[x].refs) /\ hd[x].refs[i] = r}
                      IN Cardinality(P)
 BackRefs(rg, r) == Cardinality({q \in Regions : rg[q].alive /\ r \in Range(rg[q].back)})
 RC(S, r) == HandleRefs(S.hd, r) + BackRefs(S.rg, r)
 
 (* what a handle shows                                                      *)
-View(rg, h)  == Sub(rg[h.refs[1]].mem, h.off, h.len)
-VView(rg, h) == IF Len(h.refs) = 2 THEN Sub(rg[h.refs[2]].mem, h.noff, h.len) ELSE <<>>
+(* A *nested* handle is an array of any type (validity, dictionary, struct,   *)
+(* list ...) over several regions, one per buffer; what it shows is its      *)
+(* logical rows (`rows`, canonical tokens), which nothing can change because *)
+(* its regions are custom allocations                                        *)
+View(rg, h)  == IF h.nested THEN Sub(h.rows, h.off, h.len) ELSE Sub(rg[h.refs[1]].mem, h.off, h.len)
+VView(rg, h) == IF ~h.nested /\ Len(h.refs) = 2 THEN Sub(rg[h.refs[2]].mem, h.noff, h.len) ELSE <<>>
 
+Snap(rg, h) == [h EXCEPT !.snap = View(rg, h), !.vsnap = VView(rg, h)]
 MkHandle(rg, kind, refs, off, noff, len) ==
-  LET h == [kind |-> kind, refs |-> refs, off |-> off, noff |-> noff, len |-> len, snap |-> <<>>, vsnap |-> <<>>]
-  IN [h EXCEPT !.snap = View(rg, h), !.vsnap = VView(rg, h)]
+  Snap(rg, [kind |-> kind, refs |-> refs, off |-> off, noff |-> noff, len |-> len, snap |-> <<>>, vsnap |-> <<>>,
+            nested |-> FALSE, rows |-> <<>>])
 
 ---------------------------------------------------------------------------
 (* Releasing: a region without references is released (its owner dropped /  *)
@@ -87,6 +94,16 @@ New(S, r, kind, bits, mem, size, x) ==
                                   back |-> <<>>, alive |-> TRUE, released |-> 0]]
   IN [S EXCEPT !.rg = rg1, !.hd = [S.hd EXCEPT ![x] = MkHandle(rg1, "buffer", <<r>>, 0, 0, Len(mem))]]
 
+(* an array of a nested type over the new custom-owned regions rs (one per    *)
+(* buffer: validity, offsets, keys, dictionary values, child values ...)      *)
+NewNested(S, rs, x, rows) ==
+  LET new == [kind |-> "custom", bits |-> FALSE, mem |-> <<>>, size |-> 0, claimed |-> FALSE, back |-> <<>>,
+              alive |-> TRUE, released |-> 0]
+      rg1 == [r \in Regions |-> IF r \in Range(rs) THEN new ELSE S.rg[r]]
+      h == [kind |-> "array", refs |-> rs, off |-> 0, noff |-> 0, len |-> Len(rows), snap |-> rows, vsnap |-> <<>>,
+            nested |-> TRUE, rows |-> rows]
+  IN [S EXCEPT !.rg = rg1, !.hd = [S.hd EXCEPT ![x] = h]]
+
 (* Buffer::clone / Array::clone                                             *)
 Clone(S, x, y) == [S EXCEPT !.hd = [S.hd EXCEPT ![y] = S.hd[x]]]
 
@@ -94,7 +111,7 @@ Clone(S, x, y) == [S EXCEPT !.hd = [S.hd EXCEPT ![y] = S.hd[x]]]
 CanSlice(S, x, o, n) == S.hd[x].kind \in {"buffer", "array"} /\ o + n <= S.hd[x].len
 Slice(S, x, y, o, n) ==
   LET h == S.hd[x]
-  IN [S EXCEPT !.hd = [S.hd EXCEPT ![y] = MkHandle(S.rg, h.kind, h.refs, h.off + o, h.noff + o, n)]]
+  IN [S EXCEPT !.hd = [S.hd EXCEPT ![y] = Snap(S.rg, [h EXCEPT !.off = @ + o, !.noff = @ + o, !.len = n])]]
 
 (* PrimitiveArray::new(values of buffer x, no nulls)                        *)
 CanWrap(S, x) == S.hd[x].kind = "buffer" /\ ~S.rg[S.hd[x].refs[1]].bits
@@ -135,7 +152,7 @@ NullsInPlaceOK(S, h) ==
   \/ h.noff % 8 # 0
   \/ UniqueUnsliced(S, h.refs[2], h.noff)
 ArrayInPlaceOK(S, x) ==
-  LET h == S.hd[x] IN h.kind = "array" /\ UniqueUnsliced(S, h.refs[1], h.off) /\ NullsInPlaceOK(S, h)
+  LET h == S.hd[x] IN h.kind = "array" /\ ~h.nested /\ UniqueUnsliced(S, h.refs[1], h.off) /\ NullsInPlaceOK(S, h)
 
 (* the write the drivers perform: v + 1 on values, 1 - b on bits             *)
 Bump(v, bits) == IF bits THEN 1 - v ELSE v + 1
@@ -149,7 +166,7 @@ Unclaim(S, r) == [S EXCEPT !.rg = [S.rg EXCEPT ![r].claimed = FALSE],
                            !.pool = @ - (IF S.rg[r].claimed THEN S.rg[r].size ELSE 0)]
 
 (* a handle whose buffers were mutated in place sees the new content         *)
-Resnap(S, x) == [S EXCEPT !.hd = [S.hd EXCEPT ![x] = MkHandle(S.rg, @.kind, @.refs, @.off, @.noff, @.len)]]
+Resnap(S, x) == [S EXCEPT !.hd = [S.hd EXCEPT ![x] = Snap(S.rg, @)]]
 
 (* into_mutable / into_vec succeeded and every visible element was bumped    *)
 BufferMutate(S, x) ==
@@ -221,17 +238,24 @@ PoolExpected(S) ==
   IN F[C]
 
 ---------------------------------------------------------------------------
-(* C Data Interface.  Exporting array x creates the C struct: an "ffi"       *)
-(* region nr that holds a reference to every buffer of x and shows what x    *)
-(* shows; handle e stands for the not yet imported struct.  Importing turns  *)
+(* C Data Interface.  Exporting array x creates the C struct (with its       *)
+(* children and dictionary): an "ffi" region nr that holds a reference to    *)
+(* every buffer of x -- every region of x -- and shows what x shows; handle e stands for the not yet imported struct.  Importing turns  *)
 (* e into an array over nr (from_ffi moves the struct into the Arc that owns *)
 (* the imported buffers).  Release happens when nr loses its last reference. *)
-CanExport(S, x) == S.hd[x].kind \in {"array", "stream"} /\ Len(S.hd[x].refs) = 1
+(* An array without validity, or a nested array that starts at its first     *)
+(* row (then every buffer is exported as it is, none is copied)              *)
+CanExport(S, x) ==
+  LET h == S.hd[x] IN
+  h.kind \in {"array", "stream"} /\ (IF h.nested THEN h.off = 0 ELSE Len(h.refs) = 1)
 Export(S, x, e, nr) ==
   LET h == S.hd[x]
-      rg1 == [S.rg EXCEPT ![nr] = [kind |-> "ffi", bits |-> FALSE, mem |-> View(S.rg, h), size |-> 4 * h.len,
-                                    claimed |-> FALSE, back |-> h.refs, alive |-> TRUE, released |-> 0]]
-  IN [S EXCEPT !.rg = rg1, !.hd = [S.hd EXCEPT ![e] = MkHandle(rg1, "export", <<nr>>, 0, 0, h.len)]]
+      rg1 == [S.rg EXCEPT ![nr] = [kind |-> "ffi", bits |-> FALSE, mem |-> IF h.nested THEN <<>> ELSE View(S.rg, h),
+                                    size |-> 4 * h.len, claimed |-> FALSE, back |-> h.refs, alive |-> TRUE,
+                                    released |-> 0]]
+      he == [kind |-> "export", refs |-> <<nr>>, off |-> 0, noff |-> 0, len |-> h.len, snap |-> <<>>, vsnap |-> <<>>,
+             nested |-> h.nested, rows |-> IF h.nested THEN View(S.rg, h) ELSE <<>>]
+  IN [S EXCEPT !.rg = rg1, !.hd = [S.hd EXCEPT ![e] = Snap(rg1, he)]]
 CanImport(S, e) == S.hd[e].kind = "export"
 Import(S, e) == [S EXCEPT !.hd = [S.hd EXCEPT ![e].kind = "array"]]
 
